@@ -1,9 +1,14 @@
 (* C05 - Volatility, range, channel and utility indicators match their definitions.
-   Proved (recurrence specifications over the reals): true range and ATR.  The other
-   indicators of this property are decided by the bit-exact engine correspondence and the
-   reference falsifier; see the level note. *)
+   Proved: true range and ATR (recurrence specifications over the reals); Counter = length
+   of the current run, on every stream and for every numeric instance (faithful engine);
+   the decision rule of the standard-deviation threshold flag (faithful engine, reals).  The
+   other indicators of this property are decided by the bit-exact engine correspondence and
+   the reference falsifier; see the level note. *)
 From Coq Require Import ZArith List String Bool Reals.
-From Hexital Require Import Base.Prelude Base.Num Model.Candle Inst.RealInst Spec.Steppers Proofs.SpecReal.
+From Hexital Require Import Base.Prelude Base.Num Model.Manager Model.Candle Model.Readings Model.Engine
+  Inst.RealInst Inst.ZInst Inst.FloatInst Spec.Steppers Proofs.SpecReal
+  Proofs.EngineProofs Proofs.CausalProofs Proofs.CounterProofs Proofs.IntLawsInst Proofs.ThresProofs.
+Import ListNotations.
 Local Open Scope R_scope.
 
 (* the true range dominates the candle's own range and both gap distances *)
@@ -28,3 +33,54 @@ Theorem C05_atr_nonnegative :
   exists r s', step ROps (S_ATR p) nd s c = Ok (VNum r, s') /\ 0 <= r.
 Proof. exact atr_nonneg. Qed.
 Print Assumptions C05_atr_nonnegative.
+
+(* Counter: the readings of a whole stream are the run lengths.  [rs] are the input readings
+   of the candles [ds]; reading j is the number of most recent candles, up to j, whose input
+   equals the counted value, candles without an input neither extending nor breaking the run
+   (run_length takes the inputs newest first).  canon is the engine's result under every
+   append schedule (C01_schedule_independence_leaf with C01_obligations_COUNTER). *)
+Theorem C05_counter_is_run_length :
+  forall (O : NumOps) (I : ind O) (input : string) (cv : val O),
+  i_kind O I = K_COUNTER input cv -> i_sub O I = false ->
+  (has_dot (i_name O I) = false /\ forall q, candle_attr O q (i_name O I) = None) ->
+  IntLaws O -> (0 <= i_round O I)%Z ->
+  forall (ds : list (cd (payload O))) (rs : list (val O)),
+  Forall2 (fun d r => reading_by_candle O (p d) input = Ok r) ds rs ->
+  canon O I (pure_calc O I) ds =
+  Ok (deco O I ds (map (fun j => run_length O cv (rev (firstn (S j) rs))) (seq 0 (List.length rs)))).
+Proof. intros O I input cv K Ht Hp L Hr ds rs HF. eapply counter_is_run_length; eassumption. Qed.
+Print Assumptions C05_counter_is_run_length.
+
+(* the integer laws the Counter theorem asks of the numeric instance hold for CPython's
+   int/float tower (whatever the pow table), for the reals and for Z *)
+Theorem C05_counter_instances :
+  (forall tbl, IntLaws (FOps tbl)) /\ IntLaws ROps /\ IntLaws ZOps.
+Proof. split; [exact intlaws_F|split; [exact intlaws_R|exact intlaws_Z]]. Qed.
+Print Assumptions C05_counter_instances.
+
+(* a concrete run: inputs T T F None T T (oldest first) count 1 2 0 0 1 2 *)
+Example C05_counter_example :
+  map (fun j => run_length ZOps (VBool true)
+                  (rev (firstn (S j) [VBool true; VBool true; VBool false; VNone; VBool true; VBool true])))
+      (seq 0 6) = [1; 2; 0; 0; 1; 2]%Z.
+Proof. reflexivity. Qed.
+
+(* standard-deviation threshold: False while sigma has no reading; otherwise True exactly
+   when the input moved by strictly more than multiplier * sigma since the previous candle *)
+Theorem C05_threshold_flag :
+  forall (I : ind ROps) (period : Z) (mult : R) (input : string),
+  i_kind ROps I = @K_STDEVTHRES ROps period mult input ->
+  forall rec (st : store ROps) i,
+  (reading ROps st (i_name ROps I ++ "_stdev") i = Ok VNone ->
+   calc_reading ROps rec I st i = Ok (VBool false, st)) /\
+  (forall s x px : R,
+   reading ROps st (i_name ROps I ++ "_stdev") i = Ok (@VNum ROps s) ->
+   reading ROps st input i = Ok (@VNum ROps x) ->
+   prev_reading ROps st input i = Ok (@VNum ROps px) ->
+   exists b, calc_reading ROps rec I st i = Ok (VBool b, st) /\ (b = true <-> Rabs (x - px) > mult * s)).
+Proof.
+  intros I period mult input K rec st i. split.
+  - intros H. eapply thres_no_sigma; eassumption.
+  - intros s x px Hs Hx Hp. eapply thres_flag; eassumption.
+Qed.
+Print Assumptions C05_threshold_flag.
